@@ -838,6 +838,21 @@ def fam_d(b, thorough):
         emit("opaque", oa, oa, oa, "&mut self", [("o", N("St"))], None)
         emit("opaque", oa, oa, oa, "&mut self", [("o", ("ref", False, ("str", "str")))], None)
         emit("opaque", oa, oa, oa, "&mut self", [("o", P("i32"))], ("res", ("unit",), N("En")))
+    # wrong number of operands (none / two): the gate has to refuse them; a backend that indexes the operand list must never see them
+    for op in ("add", "sub", "mul", "div", "add_assign", "sub_assign", "comparison", "indexer"):
+        for kind, sf in (("opaque", "&self"), ("struct", "self"), ("enum", "self")):
+            if op.endswith("_assign"):
+                if kind != "opaque":
+                    continue
+                sf2, ret = "&mut self", None
+            elif op == "comparison":
+                sf2, ret = sf, P("i8")
+            elif op == "indexer":
+                sf2, ret = sf, ("opt", P("u8"))
+            else:
+                sf2, ret = sf, (lambda k, ft: ("box", ft) if k == "opaque" else ft)
+            emit(kind, op, op, op, sf2, [], ret)
+            emit(kind, op, op, op, sf2, [("o", P("i32")), ("p", P("i32"))], ret)
 
 
 FIELD_ALPHA_QUICK = [P("u8"), P("f64"), N("En"), N("St"), OP_REF, ("dopt", P("u8")), ("ffi", "DiplomatStrSlice<'a>", "bslice"), ("opt", OP_REF)]
@@ -981,6 +996,28 @@ def fam_f(b, depth):
             b.add("f", types=tys2, m=method(b.mname(), owner=n2, selff="&self", params=[("w", WRITE)]), pos="terminus:nested constructors")
 
 
+RUST_LINK_KINDS = {  # kind -> number of trailing non-module path elements (core/src/ast/docs.rs DocType; book/src/docs.md)
+    "Mod": 0, "Struct": 1, "Enum": 1, "Trait": 1, "Fn": 1, "Macro": 1, "Constant": 1, "Typedef": 1,
+    "FnInEnum": 2, "FnInStruct": 2, "FnInTypedef": 2, "FnInTrait": 2, "DefaultFnInTrait": 2, "EnumVariant": 2, "StructField": 2,
+    "AssociatedTypeInEnum": 2, "AssociatedTypeInStruct": 2, "AssociatedTypeInTrait": 2, "AssociatedConstantInEnum": 2,
+    "AssociatedConstantInStruct": 2, "AssociatedConstantInTrait": 2, "EnumVariantField": 3,
+}
+
+
+def fam_g(b, thorough):
+    """documentation: every rust_link item kind x display mode x path depth on a type, a method and an enum variant"""
+    for kind, tail in sorted(RUST_LINK_KINDS.items()):
+        for display in (None, "compact", "hidden"):
+            for mods in ((1, 0) if not thorough else (2, 1, 0)):
+                path = "::".join(["my_crate"] + ["m%d" % i for i in range(mods)] + ["Item", "sub", "leaf"][:tail])
+                a = "#[diplomat::rust_link(%s, %s%s)]" % (path, kind, (", " + display) if display else "")
+                n = b.sname("Dk")
+                td = tdecl(n, "opaque", attrs=["/// Documented type.", a],
+                           methods=["/// Documented method.\n        %s\n        pub fn documented(&self) -> u8 { 0 }" % a])
+                te = tdecl(n + "E", "enum", attrs=["/// Documented enum.", a], variants="/// first\n        %s\n        A, B" % a)
+                b.add("g", types=[td, te], pos="rust_link:%s" % (display or "normal"))
+
+
 def enumerate_items(tier):
     thorough = tier == "thorough"
     b = Builder()
@@ -991,4 +1028,5 @@ def enumerate_items(tier):
     fam_d(b, thorough)
     fam_e(b, thorough)
     fam_f(b, 3 if thorough else 2)
+    fam_g(b, thorough)
     return b.items
